@@ -500,6 +500,25 @@ pub fn set_poke_after_error(on: bool) {
     POKE_AFTER_ERROR.with(|p| p.set(on));
 }
 
+thread_local! {
+    /// consumer behaviour "reads on after an error": after an error (not the harness' own bound) the
+    /// consumer goes on with its script, up to three errors; what it collects is returned as one result
+    static RESUME_AFTER_ERROR: std::cell::Cell<bool> = const { std::cell::Cell::new(false) };
+}
+
+pub fn set_resume_after_error(on: bool) {
+    RESUME_AFTER_ERROR.with(|p| p.set(on));
+}
+
+fn resuming() -> bool {
+    RESUME_AFTER_ERROR.with(|p| p.get())
+}
+
+fn is_harness_bound(e: &io::Error) -> bool {
+    let s = e.to_string();
+    s.starts_with("sim: consumer got more than the bound") || s.starts_with("sim: endless Interrupted")
+}
+
 fn poke<R: Read>(r: &mut R) {
     if POKE_AFTER_ERROR.with(|p| p.get()) {
         let mut buf = [0u8; 96];
@@ -514,7 +533,20 @@ fn poke<R: Read>(r: &mut R) {
 /// Drain `r` to its end.  Returns everything released before the end/err, and how it ended.
 /// `max` bounds the amount accepted (guards against readers that never end).
 pub fn drain<R: BufRead>(r: &mut R, c: &Consumer, max: usize) -> (Vec<u8>, io::Result<()>) {
-    let (out, end) = drain_inner(r, c, max);
+    let (mut out, mut end) = drain_inner(r, c, max);
+    if resuming() {
+        for _ in 0..3 {
+            match &end {
+                Err(e) if !is_harness_bound(e) => {
+                    let (more, e2) = drain_inner(r, c, max.saturating_sub(out.len()));
+                    out.extend_from_slice(&more);
+                    end = e2;
+                }
+                _ => break,
+            }
+        }
+        return (out, end);
+    }
     if end.is_err() {
         if POKE_AFTER_ERROR.with(|p| p.get()) {
             let _ = r.fill_buf().map(|b| b.len());
@@ -526,7 +558,20 @@ pub fn drain<R: BufRead>(r: &mut R, c: &Consumer, max: usize) -> (Vec<u8>, io::R
 
 /// Same for a plain `Read` (FillConsume degrades to a read loop with the same sizes).
 pub fn drain_read<R: Read>(r: &mut R, c: &Consumer, max: usize) -> (Vec<u8>, io::Result<()>) {
-    let (out, end) = drain_read_inner(r, c, max);
+    let (mut out, mut end) = drain_read_inner(r, c, max);
+    if resuming() {
+        for _ in 0..3 {
+            match &end {
+                Err(e) if !is_harness_bound(e) => {
+                    let (more, e2) = drain_read_inner(r, c, max.saturating_sub(out.len()));
+                    out.extend_from_slice(&more);
+                    end = e2;
+                }
+                _ => break,
+            }
+        }
+        return (out, end);
+    }
     if end.is_err() {
         poke(r);
     }
